@@ -53,31 +53,39 @@ let render (get_str : 'v option -> string) (item_str : 'k * 'v -> string) (key_s
       String.concat "," (List.map (fun (i, k) -> hex_int (int_of_nat i) ^ "=" ^ key_str k) (layout t)) in
     String.concat " " (List.map one obs @ [lay])
 
+(* specification-level result (S line): the outputs of the abstract map of Table.v ([run_spec],
+   the right-hand side of TableProofs.table_refines_map_lemma), same text without the L: section *)
+let render_spec (get_str : 'v option -> string) (item_str : 'k * 'v -> string) (obs : ('k, 'v) obs list) : string =
+  let one = function
+    | ObsUnit -> "."
+    | ObsBool b -> if b then "1" else "0"
+    | ObsVal o -> get_str o
+    | ObsItems l -> "{" ^ String.concat "," (List.sort compare (List.map item_str l)) ^ "}"
+    | ObsCrash -> "crash"
+    | ObsHang -> "hang" in
+  String.concat " " (List.map one obs)
+
 let () =
   iter_cases Sys.argv.(1) (fun id kind payload ->
     match kind with
     | "map" ->
         let ops = ops_of kind bytes_of_hex n_of_hex payload in
-        out id "M" (render
-          (fun o -> hex_of_n (smap_get_default o))
-          (fun (k, v) -> hex_of_bytes k ^ "=" ^ hex_of_n v)
-          hex_of_bytes (smap_run ops))
+        let g = (fun o -> hex_of_n (smap_get_default o)) and it = (fun (k, v) -> hex_of_bytes k ^ "=" ^ hex_of_n v) in
+        out id "M" (render g it hex_of_bytes (smap_run ops));
+        out id "S" (render_spec g it (smap_run_spec ops))
     | "set" ->
         let ops = ops_of kind n_of_hex (fun _ -> ()) payload in
-        out id "M" (render
-          (fun _ -> "")
-          (fun (k, ()) -> hex_of_n k)
-          hex_of_n (uset_run ops))
+        let g = (fun _ -> "") and it = (fun (k, ()) -> hex_of_n k) in
+        out id "M" (render g it hex_of_n (uset_run ops));
+        out id "S" (render_spec g it (uset_run_spec ops))
     | "tagmap" ->
         let ops = ops_of kind n_of_hex n_of_hex payload in
-        out id "M" (render
-          (fun o -> match o with Some v -> hex_of_n v | None -> "~")
-          (fun (k, v) -> hex_of_n k ^ "=" ^ hex_of_n v)
-          hex_of_n (tagmap_run ops))
+        let g = (fun o -> match o with Some v -> hex_of_n v | None -> "~") and it = (fun (k, v) -> hex_of_n k ^ "=" ^ hex_of_n v) in
+        out id "M" (render g it hex_of_n (tagmap_run ops));
+        out id "S" (render_spec g it (tagmap_run_spec ops))
     | "stylemap" ->
         let ops = ops_of kind n_of_hex bytes_of_hex payload in
-        out id "M" (render
-          (fun o -> match o with Some v -> hex_of_bytes v | None -> "~")
-          (fun (k, v) -> hex_of_n k ^ "=" ^ hex_of_bytes v)
-          hex_of_n (stylemap_run ops))
+        let g = (fun o -> match o with Some v -> hex_of_bytes v | None -> "~") and it = (fun (k, v) -> hex_of_n k ^ "=" ^ hex_of_bytes v) in
+        out id "M" (render g it hex_of_n (stylemap_run ops));
+        out id "S" (render_spec g it (stylemap_run_spec ops))
     | _ -> out id "M" "unknown-kind")
